@@ -35,3 +35,19 @@ Example C07_dir_slots_example :
   let del := 229 :: repeat 65 31 in let a := repeat 66 11 ++ [32] ++ repeat 0 20 in let lf := [65] ++ repeat 97 10 ++ [15] ++ repeat 0 20 in
   live_slots 10 (del ++ lf ++ a ++ repeat 0 32 ++ a) = [a].
 Proof. vm_compute. reflexivity. Qed.
+
+(** what the reader ignores: a deleted slot (and the long-name slots before it), everything behind the end mark, and long-name runs that
+    are incomplete or carry another name's checksum — the short entry is then shown under its short name *)
+Theorem C07_deleted_slot : forall f slot rest pend acc, length slot = 32%nat -> nthZ slot 0 = 229 ->
+  scan_slots (S f) (slot ++ rest) pend acc = scan_slots f rest [] acc.
+Proof. exact scan_deleted_slot. Qed.
+Print Assumptions C07_deleted_slot.
+Theorem C07_end_mark : forall f slot rest pend acc, length slot = 32%nat -> nthZ slot 0 = 0 ->
+  scan_slots (S f) (slot ++ rest) pend acc = Ok (acc, [], true).
+Proof. exact scan_end_mark. Qed.
+Print Assumptions C07_end_mark.
+Theorem C07_orphans_ignored : forall f e rest pend acc, sentry_ok e ->
+  lfn_complete pend = false \/ lfn_chk_ok pend (d_name e) = false ->
+  scan_slots (S f) (ser_short e ++ rest) pend acc = scan_slots f rest [] (acc ++ [set_lfn e None]) /\ shown_name (set_lfn e None) = NShort (sfn_display (d_name e)).
+Proof. exact scan_orphans_ignored. Qed.
+Print Assumptions C07_orphans_ignored.
